@@ -4,7 +4,7 @@
 -/
 import Simpleline.Lemmas.InputInv
 
-namespace Simpleline
+namespace Simpleline.Input
 
 /-! ### the registered handlers serve the right classes -/
 
@@ -72,7 +72,7 @@ theorem handlersOf_mem {L : LoopSt} {cls : Cls} {i : Nat} {h : HRef} {d : Option
 
 /-! ### clean code -/
 
-def Instr.clean : Instr → Bool
+def _root_.Simpleline.Instr.clean : Instr → Bool
   | .act a => !a.forges
   | .newLoop s => !s.cls.isInput
   | .callH .itm _ s => s.cls = .inputReceived
@@ -161,7 +161,7 @@ theorem inputReceived_code (P : Prog) (c : Cfg) (s : Sig) (rest : List Instr)
     rw [h1, final_ok, h3]
     exact List.Sublist.refl _
 
-macro "clean_leaf" : tactic => `(tactic| first
+macro "inp_clean_leaf" : tactic => `(tactic| first
     | (apply cleanCode_raise; simp [*, Instr.clean]; done)
     | (simp [*, Instr.clean, Cfg.newSig, Cls.isInput]; done)
     | (apply cleanCode_take (f := fun s => [Instr.processSignal s]) <;> simp [*, Instr.clean]; done)
@@ -188,11 +188,11 @@ theorem cleanCode_step (P : Prog) (c : Cfg) (hP : P.NoForge) (hH : HandlersOK c)
     all_goals clear hir hir'
     all_goals try simp only [Instr.clean, Bool.not_eq_eq_eq_not, Bool.not_true, decide_eq_true_eq] at hins
     all_goals dsimp only
-    all_goals try (clean_leaf; done)
-    all_goals try (split <;> try (clean_leaf; done))
-    all_goals try (split <;> try (clean_leaf; done))
-    all_goals try (split <;> try (clean_leaf; done))
-    all_goals try (split <;> try (clean_leaf; done))
+    all_goals try (inp_clean_leaf; done)
+    all_goals try (split <;> try (inp_clean_leaf; done))
+    all_goals try (split <;> try (inp_clean_leaf; done))
+    all_goals try (split <;> try (inp_clean_leaf; done))
+    all_goals try (split <;> try (inp_clean_leaf; done))
     -- dispatch
     · have := clean_callH (s := ‹Sig›) hH ‹_›
       simp only [final_ok, push_code, List.cons_append, List.nil_append, cleanCode_cons, this, hrest, and_true, true_and]
@@ -217,7 +217,8 @@ theorem cleanCode_reach {P : Prog} {c0 c : Cfg} (h0 : Started c0) (hU : UserHand
     rw [hcode] at hi
     simp only [List.mem_append, List.mem_map, List.mem_singleton] at hi
     rcases hi with ⟨a, ha, rfl⟩ | rfl
-    · have := hF.2 a (by rw [hcode]; simp [ha])
+    · have := hF.2 (.act a) (by rw [hcode]; simp [ha])
+      simp only [Instr.forges] at this
       simp [Instr.clean, this]
     · rfl
   · intro c hr hi
@@ -225,4 +226,4 @@ theorem cleanCode_reach {P : Prog} {c0 c : Cfg} (h0 : Started c0) (hU : UserHand
   · intro c c' _ hi hd
     rw [deliver_code hd]; exact hi
 
-end Simpleline
+end Simpleline.Input
